@@ -47,6 +47,11 @@ pub enum Fault {
     SwapLines(u32, u32),
     ReplaceInLine { line: u32, from: String, to: String },
     RandomBytes(Vec<u8>),
+    /// binary: every line-table chunk's line number := base - k*step (k = chunk index), i.e. several
+    /// blocks crowded at the top of the usize range
+    LineTableNearMax { base: u64, step: u64 },
+    /// binary: move the k-th code block so that it ends `past` words after xFFFF (0 = exactly at the top)
+    BlockToTop { k: u32, past: u16 },
 }
 #[derive(Clone, Debug, Serialize, Deserialize, PartialEq)]
 pub struct TScn {
@@ -172,7 +177,23 @@ pub fn gen_set(r: &mut Rng, c: SetCfg) -> Vec<TFile> {
             own.push((orig, worst));
             next_free = next_free.max(orig + worst) + r.below(0x80) as u32;
         }
-        let opts = FileOpts { id: i, blocks, shared: fr, exotic: c.exotic, crlf: r.chance(1, 3), ext_place: r.below(4) as u8, max_blkw: 4 };
+        let opts = FileOpts { id: i, blocks, shared: fr, exotic: c.exotic, crlf: r.chance(1, 3), ext_place: r.below(4) as u8, max_blkw: 4, pin_first: false };
+        let mut opts = opts;
+        if i == 0 && r.chance(1, 8) {
+            // a block at the very bottom of memory with a shared label on its first word (address x0000,
+            // which is also the placeholder address of external declarations)
+            opts.blocks[0].0 = 0x0000;
+            opts.pin_first = true;
+        }
+        if i > 0 && r.chance(1, 10) {
+            // a file that emits no words at all: only declarations
+            opts.blocks.clear();
+            for sh in opts.shared.iter_mut() {
+                if sh.1 == Role::Define {
+                    sh.1 = Role::Extern;
+                }
+            }
+        }
         let tf = TFile { opts, seed: r.next_u64(), debug: c.all_debug || r.chance(2, 3) };
         let g = regen(&tf);
         for (s, l) in &g.obj.blocks {
@@ -555,6 +576,27 @@ fn apply_fault(bytes: &mut Vec<u8>, f: &Fault, others: &[Vec<u8>], text: bool) {
             *bytes = lines.join("\n").into_bytes();
         }
         Fault::RandomBytes(b) => *bytes = b.clone(),
+        Fault::LineTableNearMax { base, step } => {
+            let chunks = binary_chunks(bytes);
+            for (k, (p, _)) in chunks.iter().filter(|(_, id)| *id == 2).enumerate() {
+                if p + 9 <= bytes.len() {
+                    let v = base.wrapping_sub(k as u64 * step);
+                    bytes[p + 1..p + 9].copy_from_slice(&v.to_le_bytes());
+                }
+            }
+        }
+        Fault::BlockToTop { k, past } => {
+            let chunks = binary_chunks(bytes);
+            let code: Vec<usize> = chunks.iter().filter(|(_, id)| *id == 0).map(|(p, _)| *p).collect();
+            if !code.is_empty() {
+                let p = code[*k as usize % code.len()];
+                if p + 5 <= bytes.len() {
+                    let len = u16::from_le_bytes([bytes[p + 3], bytes[p + 4]]);
+                    let addr = 0u16.wrapping_sub(len).wrapping_add(*past);
+                    bytes[p + 1..p + 3].copy_from_slice(&addr.to_le_bytes());
+                }
+            }
+        }
     }
 }
 
@@ -569,10 +611,10 @@ fn binary_chunks(b: &[u8]) -> Vec<(usize, u8)> {
         let rd64 = |o: usize| -> usize { if o + 8 <= b.len() { u64::from_le_bytes(b[o..o + 8].try_into().unwrap()) as usize } else { 0 } };
         let len = match id {
             0 => 5 + 3 * rd16(p + 3),
-            1 => 20 + rd64(p + 12),
+            1 => rd64(p + 12).saturating_add(20),
             2 => 11 + 2 * rd16(p + 9),
-            3 => 9 + rd64(p + 1),
-            4 => 11 + rd64(p + 3),
+            3 => rd64(p + 1).saturating_add(9),
+            4 => rd64(p + 3).saturating_add(11),
             _ => break,
         };
         p = p.saturating_add(len);
@@ -662,6 +704,12 @@ fn gen_faults(r: &mut Rng, sample: &[u8], text: bool, nfiles: usize) -> Vec<Faul
             }
         };
         v.push(f);
+    }
+    if !text && r.chance(1, 12) {
+        v.push(Fault::LineTableNearMax { base: u64::MAX - r.below(12), step: r.below(6) });
+    }
+    if !text && r.chance(1, 12) {
+        v.push(Fault::BlockToTop { k: r.below(4) as u32, past: *r.pick(&[0u16, 0, 1, 2, 0xFFFF]) });
     }
     if r.chance(1, 20) {
         v = vec![Fault::RandomBytes((0..r.below(200)).map(|_| r.u8()).collect())];
@@ -1104,6 +1152,7 @@ fn fault_name(f: &Fault) -> &'static str {
         Fault::Field { .. } | Fault::ReplaceInLine { .. } => "fired.disk-field",
         Fault::InvalidUtf8 { .. } => "fired.disk-utf8",
         Fault::RandomBytes(_) => "fired.disk-random",
+        Fault::LineTableNearMax { .. } | Fault::BlockToTop { .. } => "fired.disk-field",
     }
 }
 
